@@ -23,6 +23,7 @@
 import LemoProofs.Lemmas.JournalReplay
 import LemoProofs.C07Merge
 import LemoProofs.C07Copy
+import LemoProofs.C07Slice
 namespace LemoProofs.C07
 open LemoModel.Journal LemoProofs.JournalStep LemoProofs.JournalReplay
 
